@@ -364,7 +364,7 @@ class C16(Property):
     def gen(self, rng, n, tier):
         kinds = (["window"] * 5 + ["window_phased"] * 4 + ["safemap"] * 3 + ["queue"] + ["queue_phased"] * 3 +
                  ["ring"] + ["ring_phased"] * 2 + ["set"] * 2 + ["cache"] * 2 + ["cache_phased"] * 3 +
-                 ["cachew"] * 3 + ["cache_take2"] + ["lin"] * 2)
+                 ["cachew"] * 3 + ["cache_take2"] + ["lin"] * 2 + ["window_gate"] * 2)
         cases = []
         for _ in range(n):
             k = rng.choice(kinds)
@@ -835,6 +835,41 @@ class C16(Property):
         ops += [["size"], ["rangestop", 2], ["range"]]
         return {"kind": "safemap", "ops": ops}
 
+    def _gen_window_gate(self, rng, tier):
+        """forced schedule: every bucket filled, then a Reduce held inside its callback after its
+        k-th bucket while another goroutine Adds at later times that roll the window by 0..size+1
+        buckets (the buckets Reduce has not been shown yet are the ones a roll resets and reuses)"""
+        size = rng.choice([1, 2, 3, 3, 3, 4, 4, 5, 8])
+        iv = rng.choice([7, 1000, 1000, 250000000])
+        t0 = T0_BASE + rng.randrange(10 ** 9)
+        ig = rng.random() < 0.4
+        t = t0 + rng.randrange(iv)
+        v = 0
+        pre = []
+        for i in range(rng.randint(size, size + 3)):        # one or two values per interval: no empty bucket
+            for _ in range(rng.randint(1, 2)):
+                v += 1
+                pre.append(["add", t, v])
+            if rng.random() < 0.2:
+                pre.append(["reduce", t])
+            t += iv if rng.random() < 0.8 else 2 * iv
+        t -= iv if pre and rng.random() < 0.7 else 0       # Reduce in the interval of the last add, or one later
+        t = max(t, max(o[1] for o in pre))
+        tr = t + (rng.randrange(iv - (t - t0) % iv) if rng.random() < 0.5 else 0)
+        shown = size - (1 if ig else 0)
+        hold = rng.randint(1, max(1, shown - 1)) if rng.random() < 0.9 else shown + 1
+        adds = []
+        ta = tr
+        for _ in range(rng.randint(1, 3)):
+            roll = rng.choice([0, 1, 1, 2, size - 1, size, size + 1])
+            nb = t0 + ((ta - t0) // iv) * iv                 # start of the current interval
+            ta = max(ta, nb + max(0, roll) * iv + rng.choice([0, 0, 1, iv - 1, rng.randrange(iv)]))
+            v += 1
+            adds.append([ta, 100 + v])
+        post = [["reduce", ta], ["add", ta, 999], ["reduce", ta], ["reduce", t0 + ((ta - t0) // iv + 1) * iv]]
+        return {"kind": "window_gate", "size": size, "interval": iv, "t0": t0, "ignore": ig, "ops": pre,
+                "gate_at": tr, "hold": hold, "adds": adds, "post": post}
+
     # ---- free-running goroutines (linearisability) -----------------------------------------
     def _gen_lin(self, rng, tier):
         obj = rng.choice(["queue", "queue", "ring", "cache", "cache", "safemap", "window"])
@@ -941,6 +976,8 @@ class C16(Property):
                     o["pair"] = r["pair"]
                 if r.get("free") is not None:
                     o["free"] = r["free"]
+                if r.get("gate") is not None:
+                    o["gate"] = r["gate"]
                 obs.append(o)
         return obs
 
@@ -994,6 +1031,20 @@ class C16(Property):
         seen = obs["obs"]
         if k == "lin":
             return self._lin_case(case, obs)
+        if k == "window_gate":
+            wops = lambda ops: clist(["WAdd %s %s" % (cz(o[1]), cz(o[2])) if o[0] == "add" else "WReduce %s" % cz(o[1])
+                                      for o in ops])
+            red = lambda l: clist([clist([clist([cz(x) for x in b]) for b in r]) for r in l])
+            npre = sum(1 for o in case["ops"] if o[0] == "reduce")
+            g = obs.get("gate") or {}
+            view = g.get("view") if g.get("view") is not None else [[-424242]]
+            if obs.get("err"):
+                view = [[-424242]]
+            return "KWindowGate %s %s %s %s %s %s %s %s %s %s %s" % (
+                cz(case["size"]), cz(case["interval"]), cz(case["t0"]), cbool(case.get("ignore", False)),
+                wops(case["ops"]), red(seen[:npre]), cz(case["gate_at"]),
+                clist(["(%s, %s)" % (cz(a[0]), cz(a[1])) for a in case["adds"]]),
+                clist([clist([cz(x) for x in b]) for b in view]), wops(case["post"]), red(seen[npre:]))
         if k in ("ring", "window") and case["size"] < 1:
             # the only acceptable outcome is the constructor's panic
             refused = (obs.get("err") or "").startswith("panic: ") and "greater than 0" in obs["err"]
@@ -1271,6 +1322,12 @@ class C16(Property):
                     if any(x["s"] < y["e"] and y["s"] < x["e"] for x in a for y in b):
                         return True
             return False
+        if k == "window_gate":
+            # the callback was parked with buckets still to come, and an Add then rolled the window
+            g = obs.get("gate") or {}
+            iv, t0 = case["interval"], case["t0"]
+            rolled = any((a[0] - t0) // iv > (case["gate_at"] - t0) // iv for a in case["adds"])
+            return bool(g.get("gated")) and rolled and len(g.get("view") or []) > case["hold"]
         ops = case["ops"]
         seen = obs["obs"]
         if k == "window":
@@ -1332,6 +1389,10 @@ class C16(Property):
                 fs.append("executor_error")
             return fs
         fs = ["kind=" + k, "%s:ops<=%d" % (k, 10 * (1 + len(case["ops"]) // 10))]
+        if k == "window_gate":
+            g = obs.get("gate") or {}
+            fs += ["window_gate:size=%d" % case["size"], "window_gate:parked=%s" % bool(g.get("gated")),
+                   "window_gate:add_waited_for_reduce=%s" % bool(g.get("add_waited"))]
         if k == "window":
             fs.append("window:size=%d" % case["size"])
             fs.append("window:ignore=%s" % case.get("ignore", False))
@@ -1438,6 +1499,8 @@ class C16(Property):
             "cache_rt": "Cache entry outlived its expiry window, expired early, or was lost",
             "cachew": "Cache entry driven by its timing wheel was not present exactly until the floor(expiry/interval)-th tick after its last Set",
             "cache_take2": "two concurrent Takes of one key were not equivalent to one load: loader ran twice, the second caller got another value, or more than one entry / eviction",
+            "window_gate": "a Reduce overlapping Adds of another goroutine was shown buckets that are the Reduce of no single "
+                           "window state (neither the window before the Adds nor after any of them)",
             "lin": "free-running goroutines on one %s: the observed results have no explanation as a sequential run consistent "
                    "with the real-time order of the calls (or a goroutine panicked / never returned)" % case.get("obj"),
         }.get(k, "property check failed")
